@@ -47,11 +47,45 @@ def Emb : Spec.Expr → Node → Prop
   | .field a, n => ∃ p x, n = .unary (S "field") p x ∧ Emb a x
   | .call f as, n => ∃ p p' wr ops, n = .callFn (.s f) p (.loadList (S "<load_list>") p' ops.reverse) true false wr .none ∧ EmbL as ops
   | .list as, n => ∃ p p' ops, n = .toList p (.loadList (S "<load_list>") p' ops.reverse) ∧ EmbL as ops
+  | .key v, n => ∃ p, n = .keyAcc p v
+  | .movie v, n => (∃ p, n = .leaf .propName (.s v) p) ∨
+      (∃ p q o, n = .propAcc p (.leaf .localVar (.s o) q) v ∧ Lscr.startsWith o (S "_") = true)
+  | .the .sys k [], n => ∃ p q o, n = .propAcc p (.leaf .localVar (.s o) q) (Spec.nameOrUnknown Spec.tblSys k) ∧
+      (Lscr.startsWith o (S "_") = true ∨ o = S "tell_obj")
+  | .the .special k [], n => ∃ p, n = .leaf .propName (.s (Spec.nameOrUnknown Spec.tblSpecial k)) p
   | _, _ => False
 /-- argument lists, in source order (the model stores them in pop order = reversed) -/
 def EmbL : List Spec.Expr → List Node → Prop
   | [], ns => ns = []
   | e :: es, ns => ∃ x xs, ns = x :: xs ∧ Emb e x ∧ EmbL es xs
+end
+
+mutual
+/-- `Emb` with `CallFunction.with_result` determined: it is set exactly for calls of handlers of the same script (opcode 56),
+    `hs` = the script's handler names -/
+def EmbH (hs : List Spec.Name) : Spec.Expr → Node → Prop
+  | .int k, n => ∃ p, n = .leaf .const (.s (Lscr.natStr k)) p
+  | .str s, n => ∃ p, n = .leaf .const (.s (Lscr.escapeString s)) p
+  | .sym s, n => ∃ p, n = .sym (.s s) p true
+  | .var .loc v, n => ∃ p, n = .leaf .localVar (.s v) p
+  | .var .param v, n => ∃ p, n = .leaf .paramName (.s v) p
+  | .var .glob v, n => ∃ p, n = .leaf .globalVar (.s v) p
+  | .var .prop v, n => ∃ p, n = .leaf .definedProp (.s v) p
+  | .un op a, n => ∃ p x, n = .unary (unName op) p x ∧ EmbH hs a x
+  | .bin op a b, n => ∃ p x y, n = .binary (binName op) p x y ∧ EmbH hs a x ∧ EmbH hs b y
+  | .field a, n => ∃ p x, n = .unary (S "field") p x ∧ EmbH hs a x
+  | .call f as, n => ∃ p p' ops, n = .callFn (.s f) p (.loadList (S "<load_list>") p' ops.reverse) true false (hs.contains f) .none ∧ EmbLH hs as ops
+  | .list as, n => ∃ p p' ops, n = .toList p (.loadList (S "<load_list>") p' ops.reverse) ∧ EmbLH hs as ops
+  | .key v, n => ∃ p, n = .keyAcc p v
+  | .movie v, n => (∃ p, n = .leaf .propName (.s v) p) ∨
+      (∃ p q o, n = .propAcc p (.leaf .localVar (.s o) q) v ∧ Lscr.startsWith o (S "_") = true)
+  | .the .sys k [], n => ∃ p q o, n = .propAcc p (.leaf .localVar (.s o) q) (Spec.nameOrUnknown Spec.tblSys k) ∧
+      (Lscr.startsWith o (S "_") = true ∨ o = S "tell_obj")
+  | .the .special k [], n => ∃ p, n = .leaf .propName (.s (Spec.nameOrUnknown Spec.tblSpecial k)) p
+  | _, _ => False
+def EmbLH (hs : List Spec.Name) : List Spec.Expr → List Node → Prop
+  | [], ns => ns = []
+  | e :: es, ns => ∃ x xs, ns = x :: xs ∧ EmbH hs e x ∧ EmbLH hs es xs
 end
 
 /-- assignment target of `set v = e` -/
@@ -73,12 +107,30 @@ def EmbSs : List Spec.Stmt → List Node → Prop
   | [], ns => ns = []
   | s :: ss, ns => ∃ x xs, ns = x :: xs ∧ EmbS s x ∧ EmbSs ss xs
 
+/-- `EmbS` with `with_result` determined (see `EmbH`) -/
+def EmbSH (hs : List Spec.Name) : Spec.Stmt → Node → Prop
+  | .set lv v, n => ∃ p q l r, n = .stmt p (.binary (S "assign") q l r) ∧ EmbLv lv l ∧ EmbH hs v r
+  | .call f as, n => ∃ p q q' ops, n = .stmt p (.callFn (.s f) q (.loadList (S "load_list") q' ops.reverse) true false (hs.contains f) .none) ∧ EmbLH hs as ops
+  | .exit, n => ∃ p q, n = .stmt p (.callFn (.s (S "exit")) q .none true false false .none)
+  | _, _ => False
+
+def EmbSsH (hs : List Spec.Name) : List Spec.Stmt → List Node → Prop
+  | [], ns => ns = []
+  | s :: ss, ns => ∃ x xs, ns = x :: xs ∧ EmbSH hs s x ∧ EmbSsH hs ss xs
+
 /-! ### the fragment -/
 
 /-- an identifier the lexer reads back as one identifier token -/
 def idOk : Spec.Name → Bool
   | [] => false
   | c :: cs => Spec.isIdStart c && cs.all Spec.isIdChar
+
+/-- printable ASCII other than the backslash and the quote: the characters of string constants that `escape_string` and
+    `replace_chars_with_lingo_constants` leave alone (the rest is property C11) -/
+def plainCharB (c : Char) : Bool := 32 ≤ c.toNat && c.toNat < 127 && c != '\\' && c != '"'
+
+/-- non-empty strings of plain characters (`""` prints as `EMPTY`) -/
+def plainStrB (s : Spec.Name) : Bool := !s.isEmpty && s.all plainCharB
 
 /-- does the printed form start with a minus sign? (`-(-x)` is the repaired form of F21; the reference printer writes `- - x`) -/
 def startsMinus : Spec.Expr → Bool
@@ -88,17 +140,28 @@ def startsMinus : Spec.Expr → Bool
 /-- names the model's `CallFunction.generate_lingo` prints in a special form -/
 def plainCallName (f : Spec.Name) : Bool := f != "sound".toList && f != "go".toList
 
+/-- `CallFunction.gv_as_sym`: a call of one of LIST_FUNCTIONS prints a symbol in first position as a bare (global variable) name -/
+def gvClash (f : Spec.Name) : List Spec.Expr → Bool
+  | .sym _ :: _ => Lscr.listHas Drx.Gen.PropTables.listFunctions (Lscr.pyLower f)
+  | _ => false
+
 mutual
 /-- expressions of the link theorems -/
 def FragE : Spec.Expr → Bool
   | .int _ => true
+  | .str s => plainStrB s
+  | .sym n => idOk n
   | .var _ n => idOk n
   | .un .neg a => FragE a && !startsMinus a
   | .un .not a => FragE a
   | .bin o a b => decide (o ≠ .starts) && FragE a && FragE b
   | .field a => FragE a
-  | .call f as => idOk f && plainCallName f && !as.isEmpty && FragL as     -- F125: a zero-argument call prints as the bare name
+  | .call f as => idOk f && plainCallName f && !as.isEmpty && !gvClash f as && FragL as   -- F125: a zero-argument call prints as the bare name
   | .list as => FragL as
+  | .key v => idOk v
+  | .movie v => idOk v
+  | .the .sys k [] => Spec.tblSys.any (fun x => x.1 == k)
+  | .the .special k [] => decide (k < 6)
   | _ => false
 def FragL : List Spec.Expr → Bool
   | [] => true
@@ -113,7 +176,7 @@ def FragLv : Spec.Expr → Bool
 /-- statements of the link theorems -/
 def FragS : Spec.Stmt → Bool
   | .set lv v => FragLv lv && FragE v
-  | .call f as => idOk f && plainCallName f && FragL as
+  | .call f as => idOk f && plainCallName f && !gvClash f as && FragL as
   | .exit => true
   | _ => false
 
@@ -121,11 +184,12 @@ def FragSs : List Spec.Stmt → Bool
   | [] => true
   | s :: ss => FragS s && FragSs ss
 
-/-- handlers of the link theorems: `on` handlers whose globals / properties are declared at script level -/
+/-- handlers of the link theorems: `on` handlers; globals may be declared at script level or in the handler (`global g` lines),
+    properties are the script's declared ones -/
 def FragH (s : Spec.Script) (h : Spec.Handler) : Bool :=
   !h.isMethod && idOk h.name && h.params.all idOk && FragSs h.body
-    && (Spec.Stmt.varsList .glob h.body).all (fun g => s.globals.contains g)
     && (Spec.Stmt.varsList .prop h.body).all (fun v => s.props.contains v)
+    && (h.globalsUsed s.globals).all idOk
 
 /-- scripts of the link theorems (explicit, decidable): plain scripts (no factory), any number of handlers -/
 def FragScript (s : Spec.Script) : Bool :=
@@ -143,6 +207,8 @@ mutual
 /-- `generate_lingo` of the image of an expression -/
 def mE : Spec.Expr → Str
   | .int k => Lscr.natStr k
+  | .str s => '"' :: s ++ ['"']
+  | .sym n => '#' :: n
   | .var _ v => v
   | .un .neg a => S "-" ++ mE a
   | .un .not a => S "not " ++ mE a
@@ -152,6 +218,10 @@ def mE : Spec.Expr → Str
   | .field a => S "field " ++ mE a
   | .call f as => f ++ S "(" ++ mArgs as ++ S ")"
   | .list as => S "[" ++ mArgs as ++ S "]"
+  | .key v => S "the " ++ v
+  | .movie v => S "the " ++ v
+  | .the .sys k [] => S "the " ++ Spec.nameOrUnknown Spec.tblSys k
+  | .the .special k [] => S "the " ++ Spec.nameOrUnknown Spec.tblSpecial k
   | _ => []
 /-- `", ".join(...)` -/
 def mArgs : List Spec.Expr → Str
@@ -171,35 +241,47 @@ def mSs (ind : Nat) : List Spec.Stmt → Str
   | [] => []
   | s :: ss => mS ind s ++ mSs ind ss
 
-/-- `on name a, b` … `end` (handlers whose globals are all declared at script level) -/
-def mHandler (h : Spec.Handler) : Str :=
-  S "on " ++ h.name ++ (if h.params.isEmpty then [] else S " " ++ Lscr.joinWith (S ", ") h.params) ++ S "\n"
-    ++ mSs 1 h.body ++ S "end\n"
+/-- the handler's own globals (used, not declared at script level) in the order `generate_lingo_code` prints them: sorted by
+    code points (= the reference printer's insertion sort) -/
+def hGlobalsSorted (s : Spec.Script) (h : Spec.Handler) : List Spec.Name :=
+  (h.globalsUsed s.globals).foldr Spec.insertName []
 
-def mHandlers : List Spec.Handler → Bool → Str
+/-- the `global g` lines of a handler, followed by a blank line when there are any -/
+def mGlobalLines (gl : List Spec.Name) : Str :=
+  (gl.map fun g => Lscr.indentOf 1 ++ S "global " ++ g ++ S "\n").flatten ++ (if gl.isEmpty then [] else S "\n")
+
+/-- `on name a, b` … `end` -/
+def mHandler (s : Spec.Script) (h : Spec.Handler) : Str :=
+  S "on " ++ h.name ++ (if h.params.isEmpty then [] else S " " ++ Lscr.joinWith (S ", ") h.params) ++ S "\n"
+    ++ mGlobalLines (hGlobalsSorted s h) ++ mSs 1 h.body ++ S "end\n"
+
+def mHandlers (s : Spec.Script) : List Spec.Handler → Bool → Str
   | [], _ => []
-  | h :: hs, first => (if first then [] else S "\n") ++ mHandler h ++ mHandlers hs false
+  | h :: hs, first => (if first then [] else S "\n") ++ mHandler s h ++ mHandlers s hs false
 
 /-- `generate_lingo_code` for a plain (non-factory) script -/
 def mText (s : Spec.Script) : Str :=
   (if s.props.length > 0 then S "property " ++ Lscr.joinWith (S ", ") s.props ++ S "\n" else [])
     ++ (if s.globals.length > 0 then (s.globals.map fun g => S "global " ++ g ++ S "\n").flatten ++ S "\n" else [])
-    ++ mHandlers s.handlers true
+    ++ mHandlers s s.handlers true
 
 /-! ### the tokens of the model's text: the reference printer's tokens in the decompiler's layout (blank lines) -/
 
-def dHandler (h : Spec.Handler) : List Spec.Tok :=
-  Spec.kw "on" :: .id h.name :: Spec.prNames h.params ++ [.nl] ++ Spec.prSs h.body ++ [Spec.kw "end", .nl]
+def dGlobalLines (gl : List Spec.Name) : List Spec.Tok :=
+  gl.flatMap (fun g => [Spec.kw "global", .id g, .nl]) ++ (if gl.isEmpty then [] else [.nl])
 
-def dHandlers : List Spec.Handler → Bool → List Spec.Tok
+def dHandler (s : Spec.Script) (h : Spec.Handler) : List Spec.Tok :=
+  Spec.kw "on" :: .id h.name :: Spec.prNames h.params ++ [.nl] ++ dGlobalLines (hGlobalsSorted s h) ++ Spec.prSs h.body ++ [Spec.kw "end", .nl]
+
+def dHandlers (s : Spec.Script) : List Spec.Handler → Bool → List Spec.Tok
   | [], _ => []
-  | h :: hs, first => (if first then [] else [.nl]) ++ dHandler h ++ dHandlers hs false
+  | h :: hs, first => (if first then [] else [.nl]) ++ dHandler s h ++ dHandlers s hs false
 
 /-- `printLingo s` with the decompiler's blank lines: one after the script-level `global` block, one between handlers -/
 def dToks (s : Spec.Script) : List Spec.Tok :=
   (if s.props.length > 0 then Spec.kw "property" :: Spec.prNames s.props ++ [.nl] else [])
     ++ (if s.globals.length > 0 then s.globals.flatMap (fun g => [Spec.kw "global", .id g, .nl]) ++ [.nl] else [])
-    ++ dHandlers s.handlers true
+    ++ dHandlers s s.handlers true
 
 /-- the model as a decompiler in the sense of `DrxProps.C02.C02_full` -/
 def modelDecompile (lscr lnam : Bytes) : Option (List Char) :=
